@@ -376,7 +376,8 @@ func (a *apiServer) FetchPartitionMetadata(ctx context.Context, req *client.Fetc
 // deadline is provided, this will synchronously block until the ack is
 // received. If the ack is not received in time, a DeadlineExceeded status code
 // is returned. A FailedPrecondition status code is returned if the partition is
-// readonly.
+// readonly. If the stream has concurrency control enabled, this blocks until
+// the ack is received even if no deadline is provided.
 func (a *apiServer) Publish(ctx context.Context, req *client.PublishRequest) (
 	*client.PublishResponse, error) {
 
@@ -431,6 +432,14 @@ func (a *apiServer) publishToStream(ctx context.Context, subject string, req *cl
 		req.AckInbox = a.getAckInbox()
 	}
 
+	// A partition with concurrency control rejects a message whose expected
+	// offset is incorrect and the publisher only learns this from the ack, so
+	// wait for the ack even if no deadline is provided.
+	waitForAck := false
+	if partition := a.metadata.GetPartition(req.Stream, req.Partition); partition != nil {
+		waitForAck = partition.log.IsConcurrencyControlEnabled()
+	}
+
 	var (
 		msg = &client.Message{
 			Key:           req.Key,
@@ -446,7 +455,7 @@ func (a *apiServer) publishToStream(ctx context.Context, subject string, req *cl
 		resp = new(client.PublishResponse)
 	)
 
-	ack, err := a.publish(ctx, subject, req.AckInbox, req.AckPolicy, msg)
+	ack, err := a.publish(ctx, subject, req.AckInbox, req.AckPolicy, waitForAck, msg)
 	if err != nil {
 		a.logger.Errorf("api: Failed to publish message: %v", err)
 		return nil, err
@@ -513,7 +522,7 @@ func (a *apiServer) PublishToSubject(ctx context.Context, req *client.PublishToS
 		resp = new(client.PublishToSubjectResponse)
 	)
 
-	ack, err := a.publish(ctx, req.Subject, req.AckInbox, req.AckPolicy, msg)
+	ack, err := a.publish(ctx, req.Subject, req.AckInbox, req.AckPolicy, false, msg)
 	if err != nil {
 		a.logger.Errorf("api: Failed to publish message: %v", err)
 		return nil, err
@@ -889,7 +898,7 @@ func (a *apiServer) getPublishSubject(req *client.PublishRequest) (string, *clie
 }
 
 func (a *apiServer) publish(ctx context.Context, subject, ackInbox string,
-	ackPolicy client.AckPolicy, msg *client.Message) (*client.Ack, error) {
+	ackPolicy client.AckPolicy, waitForAck bool, msg *client.Message) (*client.Ack, error) {
 
 	buf, err := proto.MarshalPublish(msg)
 	if err != nil {
@@ -897,9 +906,9 @@ func (a *apiServer) publish(ctx context.Context, subject, ackInbox string,
 	}
 
 	// If AckPolicy is NONE or a timeout isn't specified, then we will fire and
-	// forget.
+	// forget unless the caller has to wait for the ack.
 	_, hasDeadline := ctx.Deadline()
-	if ackPolicy == client.AckPolicy_NONE || !hasDeadline {
+	if ackPolicy == client.AckPolicy_NONE || !(hasDeadline || waitForAck) {
 		if err := a.ncPublishes.Publish(subject, buf); err != nil {
 			return nil, errors.Wrap(err, "failed to publish to NATS")
 		}
